@@ -73,7 +73,7 @@ func VerifH_C04_KeySwitchBitDecomp() {
 		}
 		ws := []int{2, 3, 4, 7}
 		if !vIsAlgebraic() {
-			ws = []int{5, 11, 8, 7} // native primes are 56 and 41 bits: 5 and 11 divide 55, 8 divides 40
+			ws = []int{5, 11, 8, 7} // native primes are 41 and 56 bits: 5 and 11 divide 55, 8 divides 40
 		}
 		for wi, w := range ws {
 			tag := "set" + string(rune('0'+set)) + "-digitwidth-case" + string(rune('0'+wi))
